@@ -1,8 +1,8 @@
 (* C10 — shared codecs and schema caches are safe for concurrent use.
    Only statements, closed by [exact lemma], with Print Assumptions beneath. *)
 From Coq Require Import String List NArith Bool.
-From J5V.model Require Import Conc ConcSites ConcCorr ConcRace ConcStatement.
-From J5V.gen Require ConcGen.
+From J5V.model Require Import Conc ConcSites ConcCorr ConcRace ConcStatement ConcState.
+From J5V.gen Require ConcGen ConcStateGen.
 From J5V.proofs Require Import ConcProofs ConcInvProofs ConcTermProofs ConcMainProofs ConcRaceProofs ConcFullProofs.
 Import ListNotations.
 Local Open Scope N_scope.
@@ -37,21 +37,45 @@ Theorem C10_placeholder_functions_agree : ConcGen.placeholder_functions = expect
 Proof. exact placeholder_functions_agree. Qed.
 Print Assumptions C10_placeholder_functions_agree.
 
-(* the cache is the only mutable state on the encode/decode path *)
+(* the cache is the only mutable state a codec call can reach.  Not a list of known names:
+   harness/cmd/gen_conc/state.go type-checks lib/j5codec, internal/codec, lib/j5reflect,
+   lib/j5schema and every hand-written package of the module they import (go/types), and
+   reports every package-level variable, every type reachable from one or from codec.Codec,
+   every field of those, the functions a codec call runs outside / inside
+   SchemaCache.Schema, and EVERY write to a variable, to a field of a reachable type (any
+   base expression), through a pointer or to an element of a non-fresh map/slice.
+   census_ok (model/ConcState.v) = the conjunction of the checks named below. *)
 Theorem C10_no_other_state :
-  (ConcGen.cache_fields = expected_cache_fields /\
-   ConcGen.reflector_fields = expected_reflector_fields /\
-   ConcGen.codec_fields = expected_codec_fields) /\
-  (ConcGen.codec_pkg_vars = expected_codec_pkg_vars /\
-   ConcGen.reflect_pkg_vars = expected_reflect_pkg_vars /\
-   ConcGen.schema_pkg_vars = expected_schema_pkg_vars /\
-   ConcGen.codec_pkg_var_writers = [] /\ ConcGen.reflect_pkg_var_writers = [] /\ ConcGen.schema_pkg_var_writers = []) /\
-  (only_calls ConcGen.reflector_methods = true /\ ConcGen.reflector_package_vars = []) /\
-  (only_calls ConcGen.codec_methods = true /\ ConcGen.codec_package_vars = ["Global"%string]) /\
-  ConcGen.codec_entry_points = expected_codec_entry_points /\
-  ConcGen.schema_writers = expected_schema_writers.
+  census_ok = true /\ ConcGen.codec_entry_points = expected_codec_entry_points.
 Proof. exact no_other_state. Qed.
 Print Assumptions C10_no_other_state.
+
+(* the load-bearing check by name, in the direction one uses it: a function that a codec call
+   can run without holding sc.mu writes nothing but a caller's scalar buffer or a protobuf
+   message it is constructing *)
+Theorem C10_lockfree_functions_write_nothing : forall w,
+  In w ConcStateGen.state_writes -> In (w_fn w) ConcStateGen.lockfree_fns ->
+  is_benign_target (w_target w) = true.
+Proof. exact lf_function_writes_nothing. Qed.
+Print Assumptions C10_lockfree_functions_write_nothing.
+
+Theorem C10_census_parts :
+  vars_only_initialised ConcStateGen.state_writes = true /\
+  lf_reads_no_locked_field ConcStateGen.lf_read_fields = true /\
+  holders_hold_only_the_cache ConcStateGen.shared_fields = true.
+Proof. exact (conj census_vars_only_initialised (conj census_lf_reads_no_locked_field census_holders)). Qed.
+Print Assumptions C10_census_parts.
+
+(* the checks discriminate: a memo map in the Reflector filled by NewRoot (directly or through
+   a local alias), a package-level cache filled inside Schema, a new mutable field on a
+   long-lived object, a per-call type becoming reachable from one — each is rejected *)
+Example C10_census_rejects_regressions :
+  lf_writes_nothing ConcStateGen.lockfree_fns (memo_write :: ConcStateGen.state_writes) = false /\
+  lf_writes_nothing ConcStateGen.lockfree_fns (memo_alias_write :: ConcStateGen.state_writes) = false /\
+  vars_only_initialised (pkg_cache_write :: ConcStateGen.state_writes) = false /\
+  holders_hold_only_the_cache (("j5reflect.Reflector.rootProps"%string, "map[string]*j5reflect.propSet"%string, true) :: ConcStateGen.shared_fields) = false /\
+  forallb shared_type_ok ("j5reflect.propSet"%string :: ConcStateGen.shared_types) = false.
+Proof. exact census_rejects_regressions. Qed.
 
 (* ---- the guarded discipline: for ALL type universes (cyclic or not, with or without
    types that cannot be reflected), ALL lists of calls per thread (on types: calls_ok),
